@@ -30,6 +30,8 @@ func vs_same[T any](a, b []T) bool { return len(a) == len(b) && (len(a) == 0 || 
 func vs_called(callee string) bool { return false }
 func vs_callResult[T any](callee string, i int) T { var z T; return z }
 func vs_callArg[T any](callee string, i int) T { var z T; return z }
+// vs_callOrder(callee): position of the last call to callee in the function's call sequence (0: never called).
+func vs_callOrder(callee string) int { return 0 }
 // vs_eq(a, b): a and b are the same value (same scalars, same references) - for struct types that
 // Go's == does not accept.
 func vs_eq[T any](a, b T) bool { return true }
